@@ -241,11 +241,15 @@ type vdFaultyFileAllocator struct {
 	base    virtual.FileAllocator
 	failing bool
 	calls   int
+	// follow: this allocator also fails whenever that one is set to fail
+	// (the allocator of the named attribute directories follows the
+	// allocator of the ordinary tree, so one switch covers both).
+	follow *vdFaultyFileAllocator
 }
 
 func (fa *vdFaultyFileAllocator) NewFile(holeSource pool.HoleSource, isExecutable bool, size uint64, shareAccess virtual.ShareMask) (virtual.LinkableLeaf, error) {
 	fa.calls++
-	if fa.failing {
+	if fa.failing || (fa.follow != nil && fa.follow.failing) {
 		return nil, errVdAllocator
 	}
 	return fa.base.NewFile(holeSource, isExecutable, size, shareAccess)
@@ -398,6 +402,11 @@ type vdWorld struct {
 	allocator virtual.StatefulHandleAllocator
 	baseFiles virtual.FileAllocator
 	files     *vdFaultyFileAllocator
+	// Named attributes, wired the way pkg/builder/virtual_build_directory.go
+	// InstallHooks() does: attribute values are pool-backed files that
+	// cannot have named attributes themselves.
+	attrFiles *vdFaultyFileAllocator
+	naFactory virtual.NamedAttributesFactory
 	baseLinks virtual.SymlinkFactory
 	links     *vdFaultySymlinkFactory
 	caseFold  bool
@@ -445,15 +454,23 @@ func newVdWorld(handles string, caseFold, hidden bool) *vdWorld {
 		panic("vfsdir: unknown handle allocator " + handles)
 	}
 	setter := func(requested virtual.AttributesMask, attributes *virtual.Attributes) {}
-	w.baseFiles = virtual.NewHandleAllocatingFileAllocator(
-		virtual.NewPoolBackedFileAllocator(w.pool, w.logger, setter, virtual.NoNamedAttributesFactory),
-		w.allocator)
-	w.files = &vdFaultyFileAllocator{base: w.baseFiles}
 	w.baseLinks = virtual.NewHandleAllocatingSymlinkFactory(
 		virtual.NewBaseSymlinkFactory(setter),
 		w.allocator.New(),
 		path.UNIXFormat)
 	w.links = &vdFaultySymlinkFactory{base: w.baseLinks}
+	w.files = &vdFaultyFileAllocator{}
+	w.attrFiles = &vdFaultyFileAllocator{
+		base: virtual.NewHandleAllocatingFileAllocator(
+			virtual.NewPoolBackedFileAllocator(w.pool, w.logger, setter, virtual.InNamedAttributeDirectoryNamedAttributesFactory),
+			w.allocator),
+		follow: w.files,
+	}
+	w.naFactory = virtual.NewInMemoryNamedAttributesFactory(w.attrFiles, w.links, w.logger, w.allocator, w.clock)
+	w.baseFiles = virtual.NewHandleAllocatingFileAllocator(
+		virtual.NewPoolBackedFileAllocator(w.pool, w.logger, setter, w.naFactory),
+		w.allocator)
+	w.files.base = w.baseFiles
 	var normalizer virtual.ComponentNormalizer = virtual.CaseSensitiveComponentNormalizer
 	if caseFold {
 		normalizer = virtual.CaseInsensitiveComponentNormalizer
@@ -463,7 +480,7 @@ func newVdWorld(handles string, caseFold, hidden bool) *vdWorld {
 		matcher = vdHiddenMatcher
 	}
 	w.root = virtual.NewInMemoryPrepopulatedDirectory(
-		w.files, w.links, w.logger, w.allocator, sort.Sort, matcher, w.clock, normalizer, setter, virtual.NoNamedAttributesFactory)
+		w.files, w.links, w.logger, w.allocator, sort.Sort, matcher, w.clock, normalizer, setter, w.naFactory)
 	return w
 }
 
